@@ -29,5 +29,11 @@ CHECKS = {
   text="Every registered directive class x 4 first lines x 3 additional-option settings x every content of <= 2 (3) lines over a 16-line vocabulary (all classes) and of 3 (4) lines for one representative per declaration signature is split by the real function and compared with a 40-line reference splitter: arguments/MarkupError, body, strict body_offset, converted options, exactly which options are dropped and named in warnings; every colon-style block is rewritten as a --- block and must give the same result with offset + 2.",
   note="Trusted: the reference splitter written from the module docstring; PyYAML for the pairs inside a block (C07 covers the tokenizer itself); body compared modulo trailing blank lines; '--- x' closers not in the vocabulary; validate_options=False (myst-nb) path not covered.",
  ),
+ "C05": dict(
+  category="model_checking",
+  technique="bounded exhaustive enumeration of heading-level / nested-heading / include sequences executed on the real renderer, plus explicit-state BFS to a fixpoint over the renderer's open-level set, against a stack-machine reference model",
+  text="Every sequence of <= 6 (7) heading levels, every sequence of <= 3 (4) symbols over a 16-symbol alphabet (headings, paragraphs, headings inside quote/list/note/nested directives, includes with heading-offset), and every include offset after every short prefix is rendered by the real DocutilsRenderer; section parents, paragraph placement, skip warnings (count and line), rubric levels and the renderer's own _level_to_section key set must equal a 15-line stack machine. A BFS over the 64 canonical open-level sets x 6 levels runs to a fixpoint, covering unbounded sequences under the stated abstraction.",
+  note="Trusted: the stack-machine model; pre-transform doctree; Sphinx `only` not generated; lines of warnings raised inside included files are counted, not compared (C04 owns lines).",
+ ),
 }
 NOT_APPLICABLE = {}
